@@ -128,6 +128,11 @@ impl Fetcher {
         node: NodeId,
         result: FetchResult,
     ) -> ControlFlow<Success, Progress> {
+        // N.b. the local node is never fetched from, so it must not count
+        // towards the target either.
+        if node == self.local_node {
+            return ControlFlow::Continue(self.progress());
+        }
         self.results.push(node, result);
         self.finished()
     }
